@@ -776,17 +776,14 @@ impl Parser {
     }
 
     fn parse_function(&mut self, function: Function) -> Result<Expr, String> {
-        let is_boolean_function = function.is_boolean_function();
         let mut function_expr = Expr::function(function);
 
         let mut curly_mode = false;
         if let Some(lexem) = self.next_lexem() {
             if lexem != Lexem::Open && lexem != Lexem::CurlyOpen {
-                if is_boolean_function {
-                    return Ok(function_expr);
-                }
+                self.drop_lexem();
 
-                return Err("Error in function expression".to_string());
+                return Ok(function_expr);
             }
 
             if lexem == Lexem::CurlyOpen {
